@@ -249,6 +249,7 @@ def build_pool_harness(scratch, race=False, gates=False):
         return _built[key]
     ov = vlib.make_overlay(scratch, "grpcgcp", os.path.join(vlib.HARNESS, "grpcgcp"),
                            rewrite=["gcp_balancer.go", "gcp_picker.go"] + (["gcp_multiendpoint.go"] if gates else []), gates=gates,
+                           extra_files={"multiendpoint/zz_verif_clockhook.go": os.path.join(vlib.HARNESS, "grpcgcp_multiendpoint_hook", "zz_verif_clockhook.go")},
                            name="ov%s%s" % ("r" if race else "", "g" if gates else ""))
     b = vlib.go_test_build(scratch, "grpcgcp", ".", ov, "pool%s%s.test" % ("-race" if race else "", "-g" if gates else ""), race=race)
     _built[key] = b
